@@ -106,6 +106,13 @@ F8API size_t modp_dtoa(double value, char* str, int prec) // DD
     tmp = (value - whole) * pow10_[prec];
     frac = (uint32_t)(tmp);
     diff = tmp - frac;
+    if (diff == 0.5) {
+        /* tmp is a rounded product, so a value next to the midpoint can look like an exact tie:
+           fma yields the exact rounding error, whose sign says on which side the value really lies */
+        const double err = fma(value - whole, pow10_[prec], -tmp);
+        if (err != 0.0)
+            diff += err > 0.0 ? 0.25 : -0.25;
+    }
 
     if (diff > 0.5) {
         ++frac;
